@@ -5,7 +5,8 @@ V = os.path.dirname(os.path.dirname(os.path.abspath(__file__)))
 tag = sys.argv[1]
 pid, x = tag[:3], tag[3]
 wave = tag[4:] or "1"
-src = f"/tmp/out-{pid}" if wave == "1" else f"/tmp/out{wave}-{pid}"
+srcwave = {"7": "8"}.get(wave, wave)
+src = f"/tmp/out-{pid}" if wave == "1" else f"/tmp/out{srcwave}-{pid}"
 ev = json.load(open(f"/tmp/eval/{tag}.json"))
 assert ev["applies"] and ev.get("tests_passed") == 55 and not ev.get("tests_failed"), ev
 assert ev["demo_patched_exit"] != 0 and ev["demo_clean_exit"] == 0, ev
